@@ -165,12 +165,28 @@ def _writer_space_check(chk, prog):
             t = strip(t[1])
         return t
 
-    def leaves(term, sign0, acc):
+    from ..gate import Classifier
+    cls = Classifier(prog, lambda t: False, lambda t: False)
+
+    def subst(t, args):
+        if not isinstance(t, tuple) or not t:
+            return t
+        if t[0] == "param" and isinstance(t[1], int) and 1 <= t[1] <= len(args):
+            return args[t[1] - 1]
+        return tuple(subst(x, args) if isinstance(x, tuple) else x for x in t)
+
+    def leaves(term, sign0, acc, depth=0):
         for sg, lf in addsub_leaves(term):
             lf = norm(lf)
+            # a small helper of the writer (`remaining_bytes()` = size - write_offset): read through its return value
+            if lf[0] == "call" and lf[1] in prog.bodies and lf[1].startswith("seglog::") and depth < 3 and len(prog.bodies[lf[1]].blocks) <= 12:
+                ret = cls.closure_return(lf[1])
+                if ret and ret[0] != "unknown":
+                    leaves(subst(ret, lf[2]), sign0 * sg, acc, depth + 1)
+                    continue
             # a widening cast may sit between the sums: flatten through it
             if lf[0] == "bin" or (lf[0] == "field" and lf[2] == "0" and lf[1][0] == "bin"):
-                leaves(lf, sign0 * sg, acc)
+                leaves(lf, sign0 * sg, acc, depth)
                 continue
             acc.append((sign0 * sg, lf))
         return acc
@@ -186,8 +202,9 @@ def _writer_space_check(chk, prog):
         raise Inconclusive("Writer::append: WriteError::SegmentFull is not constructed")
     n = 0
     for c in comparisons(prog, ab, ev):
-        sa = any(isinstance(x, tuple) and x and x[0] == "field" and x[2] == "size" for x in walk(c["a"]))
-        sb_ = any(isinstance(x, tuple) and x and x[0] == "field" and x[2] == "size" for x in walk(c["b"]))
+        def has_size(t):
+            return any(lf[0] == "field" and lf[2] == "size" and "Writer" in str(lf[3]) for sg, lf in leaves(t, 1, []))
+        sa, sb_ = has_size(c["a"]), has_size(c["b"])
         if sa == sb_:
             continue
         e, sz, op = (c["b"], c["a"], SWAP[c["op"]]) if sa else (c["a"], c["b"], c["op"])
